@@ -78,7 +78,21 @@ func init() {
 			if vi {
 				mode = "vi"
 			}
-			return Case{Specs: []Spec{typed, replay}, Class: mode, Meta: map[string]string{"buf": buf, "pos": fmt.Sprint(pos), "K": fmt.Sprintf("%q", K), "Kraw": strings.Join(K, ""), "mode": mode}}
+			across := "0"
+			if r.Intn(5) == 0 {
+				// the macro is recorded in one Readline call, the line accepted, and the macro replayed in the NEXT
+				// call on the same shell (against: the keys typed in both calls)
+				across = "1"
+				typed.Runs, replay.Runs = 2, 2
+				play := rec[len(rec)-1:]
+				if vi {
+					play = rec[len(rec)-2:]
+				}
+				record := rec[:len(rec)-len(play)]
+				typed.Chunks = hexChunks(append(append(append(append(append([]string{}, pre...), K...), "\r"), pre...), K...))
+				replay.Chunks = hexChunks(append(append(append(append(append([]string{}, pre...), record...), "\r"), pre...), play...))
+			}
+			return Case{Specs: []Spec{typed, replay}, Class: mode + map[string]string{"0": "", "1": "/across-calls"}[across], Meta: map[string]string{"buf": buf, "pos": fmt.Sprint(pos), "K": fmt.Sprintf("%q", K), "Kraw": strings.Join(K, ""), "mode": mode, "across": across}}
 		},
 		oracle: func(c Case, trs []Trace) []Finding {
 			for _, tr := range trs {
@@ -93,6 +107,39 @@ func init() {
 			}
 			// a key of K that ends the Readline call (C-d on an empty line, RET...) makes the two scripts
 			// diverge into different calls: not a case of this property
+			if c.Meta["across"] == "1" {
+				for _, tr := range trs {
+					if len(tr.Results) != 2 || tr.Results[0].Err != "" || tr.Results[1].Err != "end-of-script" {
+						stat("skipped: not exactly one accepted call then the replay")
+						return nil
+					}
+				}
+				a, b := trs[0].Waits[len(trs[0].Waits)-1], trs[1].Waits[len(trs[1].Waits)-1]
+				stat("decided: " + c.Meta["mode"] + "/across-calls")
+				if a.Line != b.Line {
+					sig := "replay-differs/" + c.Meta["mode"] + "/across-calls"
+					if i := strings.Index(c.Meta["Kraw"], "\x1b"); c.Meta["mode"] == "vi" && i >= 0 && i < len(c.Meta["Kraw"])-1 {
+						sig = "replay-differs/vi/esc-followed-by-keys"
+					}
+					for _, ch := range c.Meta["Kraw"] {
+						if ch > 0x7f && c.Specs[0].Inputrc != "" {
+							sig = "replay-differs/" + c.Meta["mode"] + "/non-ascii-key"
+							break
+						}
+					}
+					if c.Meta["mode"] == "emacs" {
+						kr := c.Meta["Kraw"]
+						for i := 0; i+1 < len(kr); i++ {
+							if kr[i] == 0x1b && kr[i+1] >= 'A' && kr[i+1] <= 'Z' && i+2 < len(kr) {
+								sig = "replay-differs/emacs/feeding-key-inside-macro"
+								break
+							}
+						}
+					}
+					return []Finding{{"C18", sig, fmt.Sprintf("K=%s on %q@%s: typed in two calls %q, recorded in one call and replayed in the next %q", c.Meta["K"], c.Meta["buf"], c.Meta["pos"], a.Line, b.Line), c}}
+				}
+				return nil
+			}
 			for _, tr := range trs {
 				if len(tr.Results) != 1 || tr.Results[0].Err != "end-of-script" {
 					stat("skipped: K ends the call")
